@@ -236,7 +236,7 @@ def run(tier, conc=True):
         res = list(ex.map(explore_cfg, [(c, depth, base.seed()) for c in cs]))
         sres = list(ex.map(simulate_cfg, [(c, 100 if quick else 800, 25, base.seed() + i) for i, c in enumerate(cs[:(6 if quick else 30)])]))
     closed = True
-    conform.settle_audit(res)
+    conform.settle_audit(res + [{"audit": None, "fails": x["fails"]} for x in sres])
     for x in res:
         R.cov["traces_validated_against_impl"] += x["edges"]
         R.cov["evaluations"] += x["edges"]
